@@ -9,7 +9,7 @@
    continuous state space -- proved as the density identity for every pair of states and as pi K = pi on every
    finite state space. *)
 From CV Require Import Base.Tac Base.Cmp Base.Ext Model.C02_MH
-  Model.C02_Tune Proofs.C02_MH Proofs.C02_Balance Proofs.C02_Vec Proofs.C02_Real Proofs.C02_Witness Proofs.C02_Tune Proofs.C02_Bilinear.
+  Model.C02_Tune Proofs.C02_MH Proofs.C02_Balance Proofs.C02_Vec Proofs.C02_Real Proofs.C02_Witness Proofs.C02_Tune Proofs.C02_Bilinear Proofs.C02_Measure.
 From Coq Require Import QArith Qreals Reals.
 
 (* ---- the log-domain decision is the MH decision ------------------------------------------------------- *)
@@ -224,6 +224,57 @@ Proof.
   split; [exact (zeta_pos k Hk) | exact (tune_monotone lam k h star Hl Hk)].
 Qed.
 Print Assumptions C02_tune_vanishing.
+
+(* reversibility INCLUDING the rejection atom as an identity between measures on rectangles X x Y of any finite lattice
+   (hence of every refinement): sum_{x in X} pi(x) K(x,Y) = sum_{y in Y} pi(y) K(y,X); with X the whole lattice: (pi K)(Y) = pi(Y).
+   This is the strongest form proved; the limit of lattice refinements (continuous state space) is not formalised. *)
+Theorem C02_detailed_balance_rectangles : forall (A : Type) (eqb : A -> A -> bool), (forall x y, eqb x y = true <-> x = y) ->
+  forall (S : list A) (pi : A -> Q) (q : A -> A -> Q), (forall x, 0 < pi x)%Q -> (forall x y, 0 < q x y)%Q ->
+  forall X Y : list A, (flow A pi (mh_kernel A eqb S pi q) X Y == flow A pi (mh_kernel A eqb S pi q) Y X)%Q.
+Proof. exact mh_kernel_rectangles. Qed.
+Print Assumptions C02_detailed_balance_rectangles.
+
+Theorem C02_invariant_sets : forall (A : Type) (eqb : A -> A -> bool), (forall x y, eqb x y = true <-> x = y) ->
+  forall (S : list A) (pi : A -> Q) (q : A -> A -> Q), NoDup S -> (forall x, 0 < pi x)%Q -> (forall x y, 0 < q x y)%Q ->
+  stochastic A S q -> forall Y : list A, (forall y, In y Y -> In y S) ->
+  (flow A pi (mh_kernel A eqb S pi q) S Y == sumQ A pi Y)%Q.
+Proof. exact mh_kernel_invariant_sets. Qed.
+Print Assumptions C02_invariant_sets.
+
+(* ANY symmetric proposal density gives the target-ratio rule; a random walk x + s*xi is symmetric for ANY even noise
+   density (Gaussian, Uniform(-a,a), Cauchy(0,g), ...); an even density shifted away from 0 is not *)
+Theorem C02_symmetric_proposal_ratio : forall (A : Type) (pi : A -> Q) (q : A -> A -> Q),
+  (forall x, 0 < pi x)%Q -> (forall x y, 0 < q x y)%Q -> (forall x y, q x y == q y x)%Q ->
+  forall x y, (alpha A pi q x y == qmin 1 (pi y / pi x))%Q.
+Proof. exact symmetric_proposal_alpha. Qed.
+Print Assumptions C02_symmetric_proposal_ratio.
+
+Theorem C02_even_noise_symmetric : forall (rho : Q -> Q), (forall t, rho (- t) == rho t)%Q ->
+  (forall a b, a == b -> rho a == rho b)%Q -> forall s x y : Q, (q_rw rho s x y == q_rw rho s y x)%Q.
+Proof. exact q_rw_symmetric. Qed.
+Print Assumptions C02_even_noise_symmetric.
+
+Theorem C02_shifted_noise_refuted :
+  exists mu s x y : Q, ~ (mu == 0)%Q /\ ~ (q_rw_shift tri mu s x y == q_rw_shift tri mu s y x)%Q.
+Proof. exact shifted_noise_refuted. Qed.
+Print Assumptions C02_shifted_noise_refuted.
+
+Example C02_even_noise_example : forall s x y : Q, (q_rw tri s x y == q_rw tri s y x)%Q.
+Proof. exact tri_rw_symmetric. Qed.
+
+(* affine change of variables as a density identity: for y = mean + s e the Gaussian exponent of the proposal at y is the
+   Gaussian exponent of the noise at e (dense symmetric or any precision P, every dimension); for pCN the residual x' - a x is s xi *)
+Theorem C02_affine_noise_density : forall (P : nat -> nat -> Q) (n : nat) (s : Q) (mean e : nat -> Q), ~ (s == 0)%Q ->
+  let y := linF 1 mean s e in
+  (BM P n (linF 1 y (- (1)) mean) (linF 1 y (- (1)) mean) / (s * s) == BM P n e e)%Q.
+Proof. exact affine_noise_density. Qed.
+Print Assumptions C02_affine_noise_density.
+
+Theorem C02_pcn_residual_is_noise : forall (P : nat -> nat -> Q) (n : nat) (a s : Q) (x xi : nat -> Q), ~ (s == 0)%Q ->
+  let x' := linF a x s xi in
+  (BM P n (res _ linF a x x') (res _ linF a x x') / (s * s) == BM P n xi xi)%Q.
+Proof. exact pcn_residual_is_noise. Qed.
+Print Assumptions C02_pcn_residual_is_noise.
 
 (* ---- otherwise the state and its cached density/gradient are unchanged ---------------------------------------- *)
 Theorem C02_reject_unchanged : forall (logd : vec -> ext) (grad : vec -> vec) (k : kernel) (sc : vec) (st : state)
